@@ -294,6 +294,10 @@ impl PutQuery {
                 .map(|(c, e)| (*c as u64, e.code))
                 .collect(),
             extra_nodes: self.extra_nodes.len(),
+            item: match &self.request {
+                PutRequestSpecific::PutMutable(args) => Some((args.seq, args.cas, args.v.to_vec())),
+                _ => None,
+            },
         }
     }
 }
